@@ -89,6 +89,13 @@ func c11Worlds(tier string) []*world.Spec {
 			{Name: "main.tf", Text: "module \"one\" {\n  source = \"./m1\"\n  in = \"eu\"\n}\noutput \"out\" {\n  value = module.one.out\n}\nvariable \"in\" {\n}\n"}}},
 		{Path: "/m1", Schema: modSchema, Funcs: gen.Functions, Files: []world.FileSpec{{Name: "m.tf", Text: "variable \"in\" {\n}\noutput \"out\" {\n  value = var.in\n}\n"}}},
 	}})
+	// a path whose path origins point into the path itself (a module that calls itself), next to an ordinary caller
+	out = append(out, &world.Spec{SchemaID: "X:self-targeting-path", HookItems: -1, Paths: []world.PathSpec{
+		{Path: "/root", Schema: modSchema, Funcs: gen.Functions, Files: []world.FileSpec{
+			{Name: "main.tf", Text: "module \"one\" {\n  source = \"./m1\"\n  in = \"eu\"\n}\noutput \"o\" {\n  value = module.one.out\n}\n"}}},
+		{Path: "/m1", Schema: modSchema, Funcs: gen.Functions, Files: []world.FileSpec{
+			{Name: "m.tf", Text: "variable \"in\" {\n}\noutput \"out\" {\n  value = var.in\n}\nmodule \"one\" {\n  source = \"./m1\"\n  in = \"again\"\n}\noutput \"o2\" {\n  value = module.one.out\n}\n"}}},
+	}})
 	// two caller paths that are textual copies of each other (same file names, same ranges), both pointing into /m1
 	out = append(out, &world.Spec{SchemaID: "X:copied-callers", HookItems: -1, Paths: []world.PathSpec{
 		{Path: "/envs/dev", Schema: modSchema, Funcs: gen.Functions, Files: []world.FileSpec{{Name: "main.tf", Text: "module \"one\" {\n  source = \"./m1\"\n  in = \"eu\"\n}\noutput \"o\" {\n  value = module.one.out\n}\n"}}},
